@@ -127,7 +127,9 @@ impl Message for Probe {
     fn merge_field<B: Buf>(&mut self, tag: u32, wire_type: WireType, buf: &mut B, ctx: DecodeContext) -> Result<(), DecodeError> {
         self.seen = Some(ctx.verif_budget());
         self.calls += 1;
-        enc::skip_field(wire_type, tag, buf, ctx)
+        // the harness inputs carry exactly one varint field (skip_field is recursive and would
+        // be unrolled to the unwind bound at every call site)
+        enc::decode_varint(buf).map(|_| ())
     }
     fn encoded_len(&self) -> usize {
         0
@@ -143,8 +145,9 @@ pub const B_SKIP_GROUP: u8 = 3;
 pub fn budget_one_level<const KIND: u8>() {
     let n: u32 = kani::any();
     let ctx = DecodeContext::verif_with_budget(n);
-    let v: u8 = kani::any();
-    kani::assume(v < 0x80);
+    // concrete payload byte: a symbolic varint byte makes its length (and every later offset)
+    // symbolic for CBMC; the budget `n` is the quantified input here
+    let v: u8 = 0x2a;
     match KIND {
         B_MESSAGE => {
             // [len 2][key field 1 varint][v]
